@@ -24,6 +24,7 @@ KINDS = {"INIT": 1, "IACK": 2, "CECHO": 10, "CACK": 11, "DATA": 0, "SACK": 3, "F
 
 DEFAULT_CFG = {"rto_initial_ms": 50, "rto_min_ms": 50, "rto_max_ms": 200, "max_hold_ms": 300}
 DEADLINE_MS = 4000  # 20 x rto_max
+MAX_CONFIRM = 6     # liveness verdicts re-run per check run
 
 
 # --------------------------------------------------------------------------------------------- TLC side
@@ -412,8 +413,12 @@ def confirm_liveness(ck, pid, scenarios, bad):
             stalled[b["sc"]] = b
         else:
             keep.append(b)
-    for k, b in sorted(stalled.items()):
+    for n, (k, b) in enumerate(sorted(stalled.items())):
         sc = scenarios[k - 1]
+        if n >= MAX_CONFIRM:
+            # enough confirmed stalls to report; the remaining ones are not re-run (bounded run time)
+            ck.notes.append(f"stall of scenario {sc['id']} not re-run (more than {MAX_CONFIRM} stalls in this run)")
+            continue
         fails = 1
         for attempt in (2, 3):
             one = dict(sc)
